@@ -118,6 +118,13 @@ def hold(job, rng, home):
     plan = {"cmds": cmds}
     if rng.random() < 0.6:
         plan["stop"] = {"iter": rng.randint(2, max(2, n_iters)), "mode": "REQUEST_NOW", "restart": True, "sync": True}
+        r = rng.random()
+        if r < 0.3:
+            # a reload some time before the stop (the reload rewrites the workflow parameters table)
+            cmds.append((rng.randint(1, plan["stop"]["iter"]), "reload_workflow", {}))
+        elif r < 0.5:
+            # stopped and restarted twice
+            plan["stop2"] = {"after": rng.randint(1, 4), "mode": "REQUEST_NOW", "restart": True, "sync": True}
     res = driver.execute(w.flow_text(), outcome, eseed, os.path.join(home, "main"), plan=plan, policy=job.get("policy"))
     return _pack(job["seed"], w, res, {"allcomplete": False, "stopreq": True, "holds": True}, {"plan": plan})
 
@@ -148,6 +155,15 @@ def stopcmds(job, rng, home):
     elif r < 0.7:
         kind = "task"
         plan["cmds"] = [(it, "stop", {"mode": None, "task": _ids_for_cmds(w, rng, 1)[0]})]
+        r2 = rng.random()
+        if r2 < 0.25:
+            # reloaded, then stopped (--now) and restarted before the stop task has run: it must still be in force
+            plan["cmds"].append((it + rng.choice([0, 1, 2]), "reload_workflow", {}))
+            plan["stop"] = {"iter": it + rng.randint(2, 4), "mode": "REQUEST_NOW", "restart": True, "sync": True}
+        elif r2 < 0.5:
+            # stopped and restarted twice
+            plan["stop"] = {"iter": it + rng.randint(1, 3), "mode": "REQUEST_NOW", "restart": True, "sync": True}
+            plan["stop2"] = {"after": rng.randint(1, 3), "mode": "REQUEST_NOW", "restart": True, "sync": True}
     else:
         kind = rng.choice(["REQUEST_CLEAN", "REQUEST_NOW"])
         plan["stop"] = {"iter": it, "mode": kind, "restart": rng.random() < 0.5, "sync": False}
